@@ -5,7 +5,7 @@ symexec.py + z3.  Prints one JSON object:
   { "results": [ {unit, fn, status: same|equivalent|different|unknown|unsupported, detail, input} ] }
 `different` carries a concrete input (state words / seed bytes / u64) on which the two versions disagree — the caller
 replays it on the real crates and on the Lean model.  Falsification support only: nothing here is a proof obligation."""
-import sys, os, json, time, random
+import sys, os, json, time, random, re
 sys.path.insert(0, os.path.dirname(os.path.abspath(__file__)))
 import z3
 import symexec as S
@@ -23,6 +23,7 @@ SEED_LENS = {"SplitMix64": 8, "Xoroshiro64Star": 8, "Xoroshiro64StarStar": 8, "X
              "Xoshiro128StarStar": 16, "Xoshiro256Plus": 32, "Xoshiro256PlusPlus": 32, "Xoshiro256StarStar": 32,
              "Xoshiro512Plus": 64, "Xoshiro512PlusPlus": 64, "Xoshiro512StarStar": 64, "XorShiftRng": 16}
 FILL_NS = [0, 1, 3, 4, 5, 7, 8, 9, 12, 13, 16, 17, 24]
+SIMP_DEFAULT = S.SIMP_LIMIT
 
 def load(repo):
     xo = Crate(repo, "rand_xoshiro", XO_FILES)
@@ -35,6 +36,7 @@ def load(repo):
 JITTER_FNS = [("JitterRng", "stir_pool"), ("JitterLfsr", "lfsr"), ("EcState", "stuck")]
 
 def run_jitter(crate, unit, fn):
+    S.SIMP_LIMIT = S.BIG
     it = Interp(crate, symbolic=True)
     if unit == "JitterRng":
         d = z3.BitVec("data", 64)
@@ -103,6 +105,7 @@ def run_fn(crate, unit, fn, mode):
     return outs + [it.panic], vars_
 
 def run_fn_(crate, unit, fn, mode):
+    S.SIMP_LIMIT = S.BIG            # small straight-line functions: simplify operation by operation (linear generators cancel)
     it = Interp(crate, symbolic=True)
     it.wrapping_units = {u for u, d in crate.units.items() if any("Wrapping" in "".join(t[1] for t in tt) or "".join(t[1] for t in tt).startswith("w<") for _, tt in d["fields"])}
     if fn in ("next_u32", "next_u64", "jump", "long_jump") or fn.startswith("fill_bytes"):
@@ -166,6 +169,757 @@ def compare(cur, pin, unit, fn, timeout_ms, runner=None):
         return dict(status="different", detail="z3 model", input=inp)
     return dict(status="unknown", detail="z3: " + s.reason_unknown())
 
+# ====================================================================== rand_hc / rand_isaac
+# Units whose state holds big arrays indexed by data.  Every function gets fully symbolic inputs built from its declared
+# parameter types (arrays of more than 32 elements are z3 arrays); functions are compared leaves first, a caller first
+# directly and — if that is too slow or undecided — modulo the callees already shown equivalent (symexec: compositional mode).
+BLOCK_UNITS = {
+    "Hc128Core": dict(crate="rand_hc", files=["hc128.rs"], gen="Hc128Rng", seed=32, serde=False,
+                      fns=[("Hc128Fns", "f1"), ("Hc128Fns", "f2"), ("Hc128Core", "step_p"), ("Hc128Core", "step_q"),
+                           ("Hc128Core", "generate"), ("Hc128Core", "sixteen_steps"), ("Hc128Core", "init"), ("Hc128Core", "from_seed")]),
+    "IsaacCore": dict(crate="rand_isaac", files=["isaac.rs", "isaac_array.rs"], gen="IsaacRng", seed=32, serde=True, word=4,
+                      fns=[("IsaacCore", f) for f in ("ind", "rngstep", "mix", "generate", "init:1", "init:2", "from_seed", "seed_from_u64",
+                                                      "from_rng", "try_from_rng")]),
+    "Isaac64Core": dict(crate="rand_isaac", files=["isaac64.rs", "isaac_array.rs"], gen="Isaac64Rng", seed=32, serde=True, word=8,
+                        fns=[("Isaac64Core", f) for f in ("ind", "rngstep", "mix", "generate", "init:1", "init:2", "from_seed", "seed_from_u64",
+                                                          "from_rng", "try_from_rng")]),
+}
+UNIT_OF_REPORT = {"Hc128Fns": "Hc128Core"}
+UNIT_BUDGET_S = 170
+
+def load_block(repo):
+    out = {}
+    for u, spec in BLOCK_UNITS.items():
+        try:
+            c = Crate(repo, spec["crate"], spec["files"])
+            c.seed_lens = {u: spec["seed"]}
+            out[u] = c
+        except Exception as e:
+            out[u] = e
+    return out
+
+def find_fn(it, crate, unit, name):
+    """(kind, Fn, outer Fn or None): a method / associated function of the unit, a nested fn of one of its methods, a free fn"""
+    u = crate.units.get(unit)
+    if u is None:
+        return None
+    if name in u["methods"]:
+        return ("m", u["methods"][name], None)
+    for mname, m in u["methods"].items():
+        try:
+            stmts, tail = it.body((unit, mname), m, crate.macros)
+        except Unsupported:
+            continue
+        for s in stmts:
+            if s[0] == "fn" and s[1].name == name:
+                return ("n", s[1], m)
+    if name in crate.fns:
+        return ("f", crate.fns[name], None)
+    return None
+
+class Inputs:
+    """fresh symbolic inputs; `vars` lists what a model must assign: (name, bit-vector) or (name, array, length)"""
+    def __init__(self):
+        self.vars = []
+    def bv(self, name, ty):
+        v = z3.BitVec(name, W[ty])
+        self.vars.append((name, v))
+        return I(v, ty, 1)
+    def arr(self, name, n, ety):
+        if n <= S.SMALL:
+            return [self.bv(f"{name}[{i}]", ety) for i in range(n)]
+        a = z3.Array(name, z3.BitVecSort(64), z3.BitVecSort(W[ety]))
+        self.vars.append((name, a, n))
+        return S.BigArr(n, ety, None, a)
+
+class RandInputs:
+    """concrete pseudo-random inputs, a function of (trial, input name) only: the two versions get the same values.  `usize`
+    values are drawn from a trial-dependent range (indices and counters are only meaningful when small / aligned)."""
+    def __init__(self, trial):
+        self.trial, self.vars, self.values = trial, [], {}
+    def rnd(self, name, bits):
+        import hashlib
+        h = hashlib.sha256(f"{self.trial}:{name}".encode()).digest()
+        return int.from_bytes(h, "little") & ((1 << bits) - 1)
+    def bv(self, name, ty):
+        x = self.rnd(name, W[ty])
+        if S.base_ty(ty) == "usize":
+            x = [x, (x % 64) * 16, x % 512, (x % 31) * 16, x % 16][self.trial % 5]
+        elif self.trial % 5 == 4:
+            x = [0, 1, (1 << W[ty]) - 1, x][self.rnd(name + "/k", 2)]
+        self.values[name] = (x, W[ty])
+        return I(x, ty)
+    def arr(self, name, n, ety):
+        xs = [self.bv(f"{name}[{i}]", ety) for i in range(n)]
+        if n <= S.SMALL:
+            return xs
+        b = S.BigArr(n, ety)
+        for i, x in enumerate(xs):
+            b.set(i, x)
+        return b
+    def src(self):
+        self.values["src"] = "pseudo-random bytes"
+        return S.Src(data=lambda i: self.rnd(f"src[{i}]", 8))
+
+def const_len(it, crate, unit, txt):
+    e = S.rsfront.Parser(S.rsfront.lex(txt), crate.macros).parse_expr_all()
+    return it.pyint(it.ev(e, [{}], dict(self=None, unit=unit, ret=None)), "array length")
+
+def resolve_type(it, crate, unit, tys):
+    """declared type with `Self::X` / `<… as Trait>::X` associated types replaced"""
+    t = tys.strip()
+    for _ in range(6):
+        m = re.search(r"Self::(\w+)", t)
+        if not m or (unit, m.group(1)) not in crate.assoc:
+            break
+        t = t.replace(m.group(0), crate.assoc[(unit, m.group(1))])
+    return t
+
+def sym_value(it, crate, unit, tys, name, inp, fixed, gens=()):
+    """symbolic value of a parameter / field of declared type `tys`"""
+    tys = resolve_type(it, crate, unit, tys)
+    isref = tys.startswith("&")
+    mut = bool(re.match(r"^&\s*('\w+\s*)?mut\b", tys))
+    bare = re.sub(r"^&\s*('\w+\s*)?(mut\b)?\s*", "", tys).strip()
+    if bare.startswith("impl ") or bare in gens:
+        return inp.src() if hasattr(inp, "src") else S.Src()
+    t = it.ty(tys)
+    if name in fixed:
+        return I(fixed[name], t) if t in W else fixed[name]
+    if t in W:
+        v = inp.bv(name, t)
+        if isref and mut:
+            return S.Ref({"v": v}, "v")
+        return v
+    if t == ("named", "bool"):
+        if isinstance(inp, RandInputs):
+            return bool(inp.rnd(name, 1))
+        b = z3.Bool(name)
+        inp.vars.append((name, b))
+        return b
+    if isinstance(t, tuple) and t[0] == "arr" and t[1] in W:
+        a = inp.arr(name, const_len(it, crate, unit, t[2]), t[1])
+        return S.View(a, 0, it.a_len(a)) if isref else a
+    if isinstance(t, tuple) and t[0] == "named":
+        m = re.match(r"^IsaacArray<(.+)>$", t[1])
+        if m and it.ty(m.group(1)) in W:
+            a = inp.arr(name, const_len(it, crate, unit, "RAND_SIZE"), it.ty(m.group(1)))
+            return S.View(a, 0, it.a_len(a)) if isref else a
+        sname = unit if t[1] == "Self" else t[1]
+        if sname in crate.units and crate.units[sname]["fields"]:
+            f = {}
+            for fname, tt in crate.units[sname]["fields"]:
+                f[fname] = sym_value(it, crate, sname, S.tystr(tt), f"{name}.{fname}" if name != "self" else fname, inp, {}, gens)
+            return Obj(sname, f)
+    raise Unsupported(f"no symbolic value for a parameter of type {tys}")
+
+def out_terms(it, v, outs, arrs):
+    """flatten a result value into scalar terms and (array term, length) pairs"""
+    v = it.val(v)
+    if v is None:
+        return
+    if isinstance(v, tuple) and v and v[0] == "result":
+        return out_terms(it, v[1], outs, arrs)
+    if isinstance(v, I):
+        outs.append(v.e); return
+    if isinstance(v, bool):
+        outs.append(z3.BoolVal(v)); return
+    if isinstance(v, int):
+        outs.append(z3.BitVecVal(v, 128)); return
+    if isinstance(v, Obj):
+        for k in sorted(v.f):
+            out_terms(it, v.f[k], outs, arrs)
+        return
+    if isinstance(v, S.View) and isinstance(v.base, S.BigArr) and v.off == 0 and v.n == v.base.n:
+        v = v.base
+    if isinstance(v, S.BigArr):
+        if len(v.cache) == v.n or v.bg is None:
+            for i in range(v.n):
+                out_terms(it, v.get(i), outs, arrs)
+        else:
+            arrs.append((v.term(), v.n))
+        return
+    if isinstance(v, (list, S.View)):
+        for x in it.elems(v):
+            out_terms(it, x, outs, arrs)
+        return
+    if z3.is_expr(v):
+        outs.append(v); return
+    raise Unsupported(f"result of type {type(v)}")
+
+def drive(crate, unit, fn, abstract=None, deadline=None, inputs=None):
+    """run unit::fn on fully symbolic inputs (or on the concrete `inputs`); returns dict(outs, arrs, panic, abort, vars, sig, kind, it)"""
+    it = Interp(crate, symbolic=inputs is None, deadline=deadline)
+    it.abstract = dict(abstract or {})
+    base, _, variant = fn.partition(":")
+    found = find_fn(it, crate, unit, base)
+    if found is None:
+        raise KeyError("function no longer exists")
+    kind, f, outer = found
+    fixed = {}
+    if base == "init" and variant:
+        fixed["rounds"] = int(variant)
+    inp = inputs if inputs is not None else Inputs()
+    obj = None
+    selfkind = next((p[1] for p in f.params if p[0] == "self"), None)
+    if selfkind is not None:
+        obj = sym_value(it, crate, unit, unit, "self", inp, {})
+    params = [p for p in f.params if p[0] != "self"]
+    gens = {t[1] for t in (f.generics or []) if t[0] == "id"}
+    # inputs are named by position (a renamed parameter is the same input), `self` by field
+    if "rounds" in fixed:
+        fixed = {f"arg{k}": fixed["rounds"] for k, p in enumerate(params) if S.tystr(p[1]).strip() == "u32"}
+    args = [sym_value(it, crate, unit, S.tystr(p[1]), f"arg{k}", inp, fixed, gens) for k, p in enumerate(params)]
+    # signature of the inputs (what an abstracted call of this function must match)
+    terms, sig = [], []
+    if obj is not None:
+        it.flat_in(obj, terms, sig)
+    bound = [it.bind(a, S.tystr(p[1])) for p, a in zip(params, args)]
+    sigok = all(it.flat_in(a, terms, sig) for a in bound)
+    key = (kind, unit, base)
+    it.abstract.pop(key, None)
+    if kind == "n":
+        env = [{}]
+        frame = dict(self=None, unit=unit, ret=None, checked=True)
+        for s in it.body((unit, outer.name), outer, crate.macros)[0]:
+            if s[0] in ("const", "fn"):
+                it.stmt(s, env, frame)
+        r = it.call_nested(f, args, env, frame)
+    elif kind == "f":
+        r = it.call_free(base, args, unit)
+    elif obj is not None:
+        r = it.call_method(obj, base, args)
+    else:
+        r = it.call_assoc(unit, base, args)
+    outs, arrs = [], []
+    out_terms(it, r, outs, arrs)
+    for a in args:
+        if isinstance(a, S.Src):
+            inp.vars.append(("src", a.arr, a.pos))
+    if selfkind == "mut":
+        out_terms(it, obj, outs, arrs)
+    for p, a in zip(params, args):
+        pt = S.tystr(p[1]).strip()
+        if re.match(r"^&\s*('\w+\s*)?mut\b", pt):
+            if isinstance(a, S.Src):
+                outs += [z3.BitVecVal(x, 64) for x in a.requests] + [z3.BitVecVal(len(a.requests), 64)]
+            else:
+                out_terms(it, a, outs, arrs)
+    return dict(outs=outs, arrs=arrs, panic=it.panic, abort=it.abort, vars=inp.vars, sig=sig if sigok else None, kind=kind, it=it)
+
+def forked(fn, seconds, mem_gb=6):
+    """run fn() in a child process with a memory limit and a hard wall-clock limit; its JSON-able result, or None.
+    (z3 honours neither its own timeout nor an interrupt reliably on big array / bit-vector terms, and an interrupted context
+    stops simplifying afterwards — so nothing long runs in this process.)"""
+    import resource, select, signal
+    rfd, wfd = os.pipe()
+    pid = os.fork()
+    if pid == 0:
+        out = None
+        try:
+            os.close(rfd)
+            lim = mem_gb << 30
+            resource.setrlimit(resource.RLIMIT_AS, (lim, lim))
+            out = fn()
+        except BaseException as e:
+            out = dict(error=f"{e!r}"[:200])
+        try:
+            os.write(wfd, json.dumps(out).encode())
+        finally:
+            os._exit(0)
+    os.close(wfd)
+    buf, end = b"", time.time() + seconds
+    while True:
+        left = end - time.time()
+        if left <= 0:
+            break
+        rl, _, _ = select.select([rfd], [], [], left)
+        if not rl:
+            break
+        chunk = os.read(rfd, 1 << 16)
+        if not chunk:
+            break
+        buf += chunk
+    os.close(rfd)
+    try:
+        os.kill(pid, signal.SIGKILL)
+    except ProcessLookupError:
+        pass
+    os.waitpid(pid, 0)
+    try:
+        return json.loads(buf.decode())
+    except Exception:
+        return None
+
+def identical_after_simplify(pairs, seconds):
+    """indices of the pairs whose two terms z3.simplify makes identical (one call over all terms: they share most of their
+    structure); None if that takes longer than `seconds`"""
+    if not pairs:
+        return []
+    def work():
+        terms = [q[1] for q in pairs] + [q[2] for q in pairs]
+        f = z3.Function("pack!", *([t.sort() for t in terms] + [z3.BoolSort()]))
+        st = z3.simplify(f(*terms)).children()
+        k = len(pairs)
+        return [i for i in range(k) if st[i].eq(st[k + i])]
+    r = forked(work, seconds)
+    return r if isinstance(r, list) else None
+
+def model_inputs(m, vars_):
+    inp = {}
+    for v in vars_:
+        if len(v) == 2:
+            x = m.eval(v[1], model_completion=True)
+            inp[v[0]] = (int(z3.is_true(x)), 1) if z3.is_bool(v[1]) else (x.as_long(), v[1].size())
+        else:
+            name, a, n = v
+            w = a.range().size()
+            for i in range(n):
+                inp[f"{name}[{i}]"] = (m.eval(z3.Select(a, z3.BitVecVal(i, 64)), model_completion=True).as_long(), w)
+    return inp
+
+def random_trials(cur, pin, unit, fn, trials=5, wall=20):
+    """run both versions concretely on pseudo-random inputs; a dict(input=…, what=…) for the first disagreement, else None"""
+    t0 = time.time()
+    for k in range(trials):
+        if time.time() - t0 > wall:
+            break
+        hit = concrete_pair(cur, pin, unit, fn, lambda: RandInputs(k), wall)
+        if hit:
+            return hit
+    return None
+
+class FixedInputs(RandInputs):
+    """concrete inputs: the given values, pseudo-random ones for everything else"""
+    def __init__(self, trial, given):
+        RandInputs.__init__(self, trial)
+        self.given = given
+    def bv(self, name, ty):
+        if name in self.given:
+            x = self.given[name] & ((1 << W[ty]) - 1)
+            self.values[name] = (x, W[ty])
+            return I(x, ty)
+        return RandInputs.bv(self, name, ty)
+
+def concrete_pair(cur, pin, unit, fn, make_inputs, wall):
+    """both versions on the same concrete inputs: None (agree / cannot run) or dict(input, what)"""
+    outs = []
+    try:
+        for c in (cur, pin):
+            ri = make_inputs()
+            d = drive(c, unit, fn, inputs=ri, deadline=time.time() + wall)
+            vals = tuple(str(z3.simplify(x)) for x in d["outs"])
+            outs.append((S.conc_bool(z3.simplify(d["abort"])), S.conc_bool(z3.simplify(d["panic"])), vals, ri.values))
+    except (Unsupported, KeyError, IndexError, AttributeError, TypeError, AssertionError, ValueError, z3.Z3Exception, RecursionError):
+        return None
+    a, b = outs
+    if a[0] is None or b[0] is None or set(a[3]) != set(b[3]):
+        return None
+    if a[0] != b[0] or a[1] != b[1]:
+        return dict(input=a[3], what=f"the panic behaviour differs (abort, debug panic): current {a[:2]}, pinned {b[:2]}")
+    if not a[0] and a[2] != b[2]:
+        n = next((i for i, (x, y) in enumerate(zip(a[2], b[2])) if x != y), len(min(a[2], b[2], key=len)))
+        return dict(input=a[3], what=f"result component {n} differs")
+    return None
+
+def cond_atoms(term, byname, limit=4000):
+    """input atoms (scalar variables, array cells at constant indices) occurring in a term: {name: z3 term}; None if the term is big"""
+    seen, stack, atoms = set(), [term], {}
+    while stack:
+        x = stack.pop()
+        i = x.get_id()
+        if i in seen:
+            continue
+        seen.add(i)
+        if len(seen) > limit:
+            return None
+        if z3.is_const(x) and x.decl().kind() == z3.Z3_OP_UNINTERPRETED:
+            n = x.decl().name()
+            if n in byname and len(byname[n]) == 2:
+                atoms[n] = x
+            continue
+        if z3.is_select(x) and z3.is_const(x.arg(0)) and z3.is_bv_value(x.arg(1)):
+            n = x.arg(0).decl().name()
+            if n in byname and len(byname[n]) == 3 and x.arg(1).as_long() < byname[n][2]:
+                atoms[f"{n}[{x.arg(1).as_long()}]"] = x
+                continue
+        stack.extend(x.children())
+    return atoms
+
+def directed_trials(cur, pin, unit, fn, runs, budget_s=20):
+    """branch-directed concrete tests: for every symbolic branch condition met while executing either version (and its
+    negation), z3 solves the condition for a few of the inputs it mentions with all others fixed at pseudo-random values —
+    an input that takes the rare side of `sum == 0`, `a == b`, an overflow … without being degenerate — and both versions are
+    run concretely on it"""
+    t0 = time.time()
+    byname = {v[0]: v for v in runs[0]["vars"]}
+    conds, seen = [], set()
+    for r in runs:
+        for pc, c in r["it"].branches:
+            f = z3.And(*(pc + [c])) if pc else c
+            g = z3.And(*(pc + [z3.Not(c)])) if pc else z3.Not(c)
+            for h in (f, g):
+                if h.get_id() not in seen:
+                    seen.add(h.get_id()); conds.append(h)
+    rng = random.Random(77)
+    tried = 0
+    for ci, f in enumerate(conds[:80]):
+        if time.time() - t0 > budget_s:
+            break
+        atoms = cond_atoms(f, byname)
+        if not atoms:
+            continue
+        names = sorted(atoms)
+        for k in sorted({1, 2, 4, max(1, len(names) // 4), max(1, len(names) // 2), len(names)}):
+            if k > len(names) or time.time() - t0 > budget_s:
+                break
+            free = set(rng.sample(names, k))
+            base = RandInputs(1000 + ci)
+            s = z3.Solver()
+            s.set("timeout", 700)
+            s.add(f)
+            for n in names:
+                if n not in free:
+                    s.add(atoms[n] == z3.BitVecVal(base.rnd(n, atoms[n].size()), atoms[n].size()))
+            if s.check() != z3.sat:
+                continue
+            m = s.model()
+            given = {n: m.eval(atoms[n], model_completion=True).as_long() for n in names}
+            tried += 1
+            hit = concrete_pair(cur, pin, unit, fn, lambda: FixedInputs(1000 + ci, given), budget_s)
+            if hit:
+                hit["what"] += f" (input solved for a branch condition of the code, {k} of its {len(names)} inputs free, the others pseudo-random)"
+                return hit
+            break
+    return None
+
+def solve_forked(formula, flags, vars_, timeout_ms, mem_gb=6):
+    """z3 in a child process; returns dict(r='sat'|'unsat'|'unknown', input=…, flagdiff=…, why=…)"""
+    def work():
+        s = z3.Solver()
+        s.set("timeout", timeout_ms)
+        s.add(formula)
+        r = s.check()
+        out = dict(r=str(r))
+        if r == z3.sat:
+            m = s.model()
+            out["input"] = model_inputs(m, vars_)
+            out["flagdiff"] = bool(flags) and z3.is_true(m.eval(z3.Or(*flags), model_completion=True))
+        elif r != z3.unsat:
+            out["why"] = s.reason_unknown()
+        return out
+    r = forked(work, timeout_ms / 1000 + 6, mem_gb)
+    if not isinstance(r, dict) or "r" not in r:
+        return dict(r="unknown", why="timeout (solver stopped after the wall-clock limit or ran out of memory)" if not r else str(r.get("error")))
+    return r
+
+def compare_block(cur, pin, unit, fn, timeout_ms, abs_cur=None, abs_pin=None, wall=60):
+    """compare unit::fn of the two crates.  Returns (result dict, signature of the inputs or None, kinds)"""
+    t0 = time.time()
+    try:
+        a = drive(cur, unit, fn, abs_cur, deadline=t0 + wall)
+    except KeyError as e:
+        return dict(status="unsupported", detail="function no longer exists"), None, None
+    except Unsupported as e:
+        return dict(status="unsupported", detail=f"current source: {e}"), None, None
+    except (IndexError, AttributeError, TypeError, AssertionError, ValueError, z3.Z3Exception, RecursionError) as e:
+        return dict(status="unsupported", detail=f"current source: interpreter error {e!r}"[:300]), None, None
+    try:
+        b = drive(pin, unit, fn, abs_pin, deadline=time.time() + wall)
+    except Exception as e:
+        return dict(status="unsupported", detail=f"pinned source: {e!r}"[:300]), None, None
+    mode = "direct"
+    used = sorted(a["it"].abstracted | b["it"].abstracted)
+    if abs_cur or abs_pin:
+        mode = ("modulo the callees " + ", ".join(used) + " (shown equivalent before; replaced by uninterpreted functions)") if used else "direct"
+    kinds = (a["kind"], b["kind"])
+    sig = a["sig"] if a["sig"] is not None and a["sig"] == b["sig"] else None
+    if len(a["outs"]) != len(b["outs"]) or len(a["arrs"]) != len(b["arrs"]):
+        return dict(status="unknown", detail="results have different shapes", mode=mode), None, kinds
+    if [(v[0], str(v[1].sort())) + tuple(v[2:]) for v in a["vars"] if v[0] != "src"] != [(v[0], str(v[1].sort())) + tuple(v[2:]) for v in b["vars"] if v[0] != "src"]:
+        return dict(status="unknown", detail="inputs have different shapes", mode=mode), None, kinds
+    # the two runs used the same variable names: inputs are shared
+    for (x, n), (y, n2) in zip(a["arrs"], b["arrs"]):
+        if n != n2 or x.sort() != y.sort():
+            return dict(status="unknown", detail="results have different types", mode=mode), None, kinds
+    for x, y in zip(a["outs"], b["outs"]):
+        if x.sort() != y.sort():
+            return dict(status="unknown", detail="results have different types", mode=mode), None, kinds
+    # 1. structurally identical terms (z3 terms are hash-consed; small subterms were simplified as they were built)
+    pairs = [("flag", a["panic"], b["panic"], None), ("flag", a["abort"], b["abort"], None)]
+    pairs += [("out", x, y, None) for x, y in zip(a["outs"], b["outs"])]
+    pairs += [("arr", x, y, n) for (x, n), (y, _) in zip(a["arrs"], b["arrs"])]
+    pairs = [q for q in pairs if not q[1].eq(q[2])]
+    # 2. concrete falsifiers, 3. one bounded simplification of everything that is left (one call: the terms share most of their structure)
+    if pairs and not used:
+        # cheap falsifier first: both versions on a few pseudo-random concrete inputs
+        hit = random_trials(cur, pin, unit, fn, wall=min(20, wall))
+        if hit:
+            return dict(status="different", detail=f"concrete run on pseudo-random inputs: {hit['what']}", mode=mode,
+                        input={k: v for k, v in hit["input"].items() if isinstance(v, tuple)}), None, kinds
+        hit = directed_trials(cur, pin, unit, fn, [a, b], budget_s=min(25, wall))
+        if hit:
+            return dict(status="different", detail=f"concrete run: {hit['what']}", mode=mode,
+                        input={k: v for k, v in hit["input"].items() if isinstance(v, tuple)}), None, kinds
+    if pairs:
+        same = identical_after_simplify(pairs, min(20, max(4, wall // 3)))
+        if same:
+            pairs = [q for i, q in enumerate(pairs) if i not in set(same)]
+    flags, diffs = [], []
+    for kind, x, y, n in pairs:
+        if kind == "flag":
+            flags.append(x != y)
+        elif kind == "out":
+            diffs.append(x != y)
+        else:
+            k = z3.BitVec(f"k!{len(diffs)}", 64)
+            diffs.append(z3.And(z3.ULT(k, z3.BitVecVal(n, 64)), z3.Select(x, k) != z3.Select(y, k)))
+    tsym = time.time() - t0
+    if not diffs and not flags:
+        return dict(status="same", detail=f"identical terms after simplification ({mode}; {tsym:.1f}s)", mode=mode), sig, kinds
+    goal = flags + ([z3.And(z3.Not(a["abort"]), z3.Or(*diffs))] if diffs else [])
+    res = solve_forked(z3.Or(*goal), flags, a["vars"], timeout_ms)
+    tz = time.time() - t0 - tsym
+    if res["r"] == "unsat":
+        return dict(status="equivalent", detail=f"z3: no input distinguishes the current from the pinned source ({mode}; symbolic execution {tsym:.1f}s, z3 {tz:.1f}s)", mode=mode), sig, kinds
+    if res["r"] == "sat":
+        if used:
+            return dict(status="unknown", detail=f"z3: satisfiable, but only {mode}: not a counterexample", mode=mode), None, kinds
+        inp = {k: tuple(v) for k, v in res["input"].items()}
+        what = "; the panic behaviour differs (debug-profile overflow / assert / index check)" if res.get("flagdiff") else ""
+        return dict(status="different", detail="z3 model" + what, input=inp, mode=mode), None, kinds
+    return dict(status="unknown", detail=f"z3: {res.get('why')} ({mode}; symbolic execution {tsym:.1f}s, z3 {tz:.1f}s)", mode=mode), None, kinds
+
+# ---------------------------------------------------------------- concrete runs (seed-level differential)
+def zero_value(it, crate, unit, tys):
+    tys = resolve_type(it, crate, unit, tys)
+    t = it.ty(tys)
+    if isinstance(t, tuple) and t[0] == "arr" and t[1] in W:
+        n = const_len(it, crate, unit, t[2])
+        return [I(0, t[1]) for _ in range(n)] if n <= S.SMALL else S.BigArr(n, t[1], I(0, t[1]))
+    if isinstance(t, tuple) and t[0] == "named":
+        m = re.match(r"^IsaacArray<(.+)>$", t[1])
+        if m and it.ty(m.group(1)) in W:
+            return S.BigArr(const_len(it, crate, unit, "RAND_SIZE"), it.ty(m.group(1)), I(0, it.ty(m.group(1))))
+    raise Unsupported(f"no default value of type {tys}")
+
+def concrete_stream(crate, unit, how, arg, blocks):
+    """outputs of `blocks` calls of generate after from_seed(bytes) / seed_from_u64(x), with the two trap flags — the
+    interpreter as an ordinary interpreter"""
+    it = Interp(crate, symbolic=False, deadline=time.time() + 120)
+    if how == "seed":
+        core = it.call_assoc(unit, "from_seed", [[I(b, "u8") for b in arg]])
+    else:
+        core = it.call_assoc(unit, "seed_from_u64", [I(arg, "u64")])
+    core = it.val(core)
+    g = crate.units[unit]["methods"]["generate"]
+    p = [q for q in g.params if q[0] != "self"][0]
+    res = zero_value(it, crate, unit, S.tystr(p[1]))
+    out = []
+    for _ in range(blocks):
+        it.call_method(core, "generate", [S.View(res, 0, it.a_len(res))])
+        for x in it.elems(res):
+            c = S.conc(x)
+            if c is None:
+                raise Unsupported("non-concrete output in a concrete run")
+            out.append(c)
+    return tuple(out), S.conc_bool(z3.simplify(it.abort)), S.conc_bool(z3.simplify(it.panic))
+
+def seed_families(unit, spec, repo, nrand=24):
+    """(class, 'seed'|'u64', value): the structured seed families of the sampled tie (tools/ties.py) + corpus + random"""
+    out = [("random", "seed", bytes(random.Random(811).getrandbits(8) for _ in range(32))), ("zero", "seed", bytes(32)), ("ones", "seed", b"\xff" * 32)]
+    rng = random.Random(20260930)
+    cdir = os.path.join(VERIF, "corpus")
+    def corpus(name):
+        try:
+            return json.load(open(os.path.join(cdir, name)))
+        except Exception:
+            return {}
+    if unit == "Hc128Core":
+        sub = corpus("hc128_subsum_seeds.json")
+        for kind in sorted(sub):
+            for e in sub[kind][:2]:
+                out.append((f"subsum:{kind}", "seed", bytes.fromhex(e["seed"])))
+        car = corpus("hc128_carry_seeds.json")
+        keys = [k for k in sorted(car, key=int) if 256 <= int(k) < 272] + rng.sample(sorted(car), min(len(car), 12))
+        for k in keys:
+            out.append((f"carry@{k}", "seed", bytes.fromhex(car[k][0])))
+    else:
+        if spec.get("word") == 4:
+            co = corpus("isaac_state_coincidence.json")
+            for kind in sorted(co):
+                for e in co[kind][:2]:
+                    out.append((f"init-state-{kind}", "seed", bytes.fromhex(e["seed"])))
+        for x in (0, 1, (1 << 64) - 1, 1 << 32, (1 << 32) - 1, rng.getrandbits(64)):
+            out.append(("u64", "u64", x))
+    try:
+        os.environ.setdefault("VERIF_REPO", repo)
+        import ties
+        out += [(c, "seed", s_) for c, s_ in ties.coincidence_seeds(rng, 32, k=1)[:24]]
+        out += [(c, "seed", s_) for c, s_ in ties.source_constant_seeds(spec["crate"], 32, limit=16)]
+    except Exception:
+        pass
+    for j in rng.sample(range(256), 8):
+        out.append(("basis", "seed", (1 << j).to_bytes(32, "little")))
+    for _ in range(nrand):
+        out.append(("random", "seed", bytes(rng.getrandbits(8) for _ in range(32))))
+    return out
+
+def seed_search(cur, pin, unit, spec, repo, budget_s, blocks=3):
+    """first seed on which the two versions' outputs (or trap flags) differ; (hit or None, seeds tried, note)"""
+    t0 = time.time()
+    tried = 0
+    for cls, how, val in seed_families(unit, spec, repo):
+        if time.time() - t0 > budget_s:
+            break
+        try:
+            a = concrete_stream(cur, unit, how, val, blocks)
+        except Unsupported as e:
+            return None, tried, f"the current source cannot be run concretely: {e}"
+        except (KeyError, IndexError, AttributeError, TypeError, AssertionError, ValueError, z3.Z3Exception) as e:
+            return None, tried, f"the current source cannot be run concretely: interpreter error {e!r}"[:200]
+        try:
+            b = concrete_stream(pin, unit, how, val, blocks)
+        except Exception as e:
+            return None, tried, f"the pinned source cannot be run concretely: {e!r}"[:200]
+        tried += 1
+        if a != b:
+            n = next((i for i, (x, y) in enumerate(zip(a[0], b[0])) if x != y), None)
+            what = f"output word {n} differs" if n is not None else "the trap flags (abort, debug panic) differ: " + str((a[1:], b[1:]))
+            return dict(cls=cls, how=how, val=val, what=what), tried, ""
+    return None, tried, ""
+
+def seed_replay(hit, spec, blocks=3):
+    nat = "u32" if spec.get("word", 4) == 4 else "u64"
+    nbytes = {"Hc128Rng": 64, "IsaacRng": 1024, "Isaac64Rng": 2048}[spec["gen"]] * blocks
+    ops = [f"{nat} 0", f"fill 0 {nbytes}", "ser 0"]
+    if hit["how"] == "seed":
+        return dict(kind="seed", hex=hit["val"].hex(), gen=spec["gen"], ops=ops)
+    return dict(kind="u64", hex=f"{hit['val']:016x}", gen=spec["gen"], ops=ops)
+
+def block_replay(unit, spec, fn, inp):
+    """operation script material for a z3 counterexample of unit::fn, when its input can be injected into the real crates"""
+    base, _, variant = fn.partition(":")
+    nat = "u32" if spec.get("word", 4) == 4 else "u64"
+    nblk = {"Hc128Rng": 64, "IsaacRng": 1024, "Isaac64Rng": 2048}[spec["gen"]]
+    ops = [f"{nat} 0", f"fill 0 {2 * nblk}", "ser 0"]
+    if base == "from_seed" and all(f"arg0[{i}]" in inp for i in range(32)):
+        return dict(kind="seed", hex=bytes(inp[f"arg0[{i}]"][0] for i in range(32)).hex(), gen=spec["gen"], ops=ops)
+    if base == "seed_from_u64" and "arg0" in inp:
+        return dict(kind="u64", hex=f"{inp['arg0'][0]:016x}", gen=spec["gen"], ops=ops)
+    if not spec["serde"]:
+        return None
+    wb = spec["word"]
+    def words(prefix, n):
+        return b"".join(inp.get(f"{prefix}[{i}]", (0, 8 * wb))[0].to_bytes(wb, "little") for i in range(n))
+    if base == "generate" and "mem[0]" in inp:
+        # serde image of BlockRng / BlockRng64: results, index, (half_used), core = mem, a, b, c; index = 256: the next word is
+        # taken from a fresh block
+        img = words("arg0", 256) + (256).to_bytes(8, "little") + (b"\0" if wb == 8 else b"")
+        img += words("mem", 256) + b"".join(inp[k][0].to_bytes(wb, "little") for k in ("a", "b", "c"))
+        return dict(kind="image", hex=img.hex(), gen=spec["gen"], ops=ops)
+    if (base == "init" and variant == "2" and "arg0[0]" in inp) or (base in ("from_rng", "try_from_rng") and "src[0]" in inp):
+        raw = words("arg0", 256) if base == "init" else bytes(inp.get(f"src[{i}]", (0, 8))[0] for i in range(256 * wb))
+        return dict(kind="source", hex=raw.hex(), gen=spec["gen"], how="try" if base == "try_from_rng" else "rng", ops=ops)
+    return None
+
+def isaac_array_changed(cur, pin):
+    """`IsaacArray` is read as its inner array: its (Deref / AsRef) impls must be the pinned ones"""
+    def sig(c):
+        f = c.files.get("isaac_array.rs")
+        if f is None:
+            return None
+        out = []
+        for trait, ty, fns, consts in f.impls:
+            if ty.startswith("IsaacArray") and trait and any(k in trait for k in ("Deref", "AsRef", "AsMut")):
+                out.append((trait, sorted((k, [t[1] for t in (v.body or [])]) for k, v in fns.items())))
+        return (f.structs.get("IsaacArray") and [(n, [t[1] for t in tt]) for n, tt in f.structs["IsaacArray"]], out)
+    return sig(cur) != sig(pin)
+
+def run_block_unit(unit, spec, repo, pinned, only, timeout_ms, wall_s, budget_s):
+    t0 = time.time()
+    wanted = [(ru, fn) for ru, fn in spec["fns"] if not only or ru in only or f"{ru}.{fn.split(':')[0]}" in only]
+    if not wanted:
+        return []
+    last = max(spec["fns"].index(w) for w in wanted)
+    try:
+        pin = Crate(pinned, spec["crate"], spec["files"]); pin.seed_lens = {unit: spec["seed"]}
+    except Exception as e:
+        return [dict(unit=ru, fn=fn, status="unsupported", detail=f"pinned source unreadable: {e!r}"[:200]) for ru, fn in wanted]
+    try:
+        cur = Crate(repo, spec["crate"], spec["files"]); cur.seed_lens = {unit: spec["seed"]}
+    except Exception as e:
+        return [dict(unit=ru, fn=fn, status="unsupported", detail=f"cannot read the current source: {e!r}"[:200]) for ru, fn in wanted]
+    abs_cur, abs_pin, results = {}, {}, []
+    arr_changed = spec["crate"] == "rand_isaac" and isaac_array_changed(cur, pin)
+    for ru, fn in spec["fns"][:last + 1]:
+        base = fn.split(":")[0]
+        tf = time.time()
+        if arr_changed and base in ("generate",):
+            r, sig, kinds = dict(status="unknown", detail="isaac_array.rs: IsaacArray or its Deref/AsRef impls changed; generate's results buffer is not modelled"), None, None
+        else:
+            hurry = any(x["status"] == "different" for x in results)      # a difference is already known: spend less on the rest
+            tmo, wl = (min(timeout_ms, 6000), min(wall_s, 20)) if hurry else (timeout_ms, wall_s)
+            left = UNIT_BUDGET_S - (time.time() - t0)                     # the whole unit should stay within a few minutes
+            tmo, wl = int(min(tmo, max(3000, left * 250))), min(wl, max(10, left / 3))
+            if left < 45:
+                hurry = True
+            r, sig, kinds = compare_block(cur, pin, unit, fn, tmo, None, None, wl)
+            slow = r["status"] == "unknown" and r.get("detail", "").startswith("z3:") or (r["status"] == "unsupported" and "limit" in r.get("detail", ""))
+            if slow and (abs_cur or abs_pin) and not hurry:
+                r2, sig2, kinds2 = compare_block(cur, pin, unit, fn, tmo, abs_cur, abs_pin, wl)
+                if r2["status"] in ("same", "equivalent") and r2.get("mode") != "direct":
+                    r2["status"] = "equivalent"
+                    r2["detail"] = r2["detail"] + f"; the direct comparison gave: {r['detail'][:120]}"
+                    r, sig, kinds = r2, sig2, kinds2
+                else:
+                    r["detail"] = r["detail"] + f"; compositional attempt: {r2['status']}: {r2['detail'][:160]}"
+        if r["status"] in ("same", "equivalent") and sig is not None and kinds:
+            abs_cur.setdefault((kinds[0], unit, base), []).append(sig)
+            abs_pin.setdefault((kinds[1], unit, base), []).append(sig)
+        r.pop("mode", None)
+        r.update(unit=ru, fn=fn, seconds=round(time.time() - tf, 1))
+        results.append(r)
+    # counterexamples -> replays on the real crates; what z3 could not decide / inject -> seed-level differential run
+    need_seed = False
+    for r in results:
+        if r["status"] == "different":
+            rp = block_replay(unit, spec, r["fn"], r["input"])
+            r["input"] = {k: f"{v[0]:#x}" for k, v in list(r["input"].items())[:600]}
+            if rp:
+                r["replay"] = rp
+            else:
+                need_seed = True
+        elif r["status"] in ("unknown", "unsupported"):
+            need_seed = True
+    have = next((r["replay"] for r in results if r.get("replay")), None)
+    if need_seed and have and spec["serde"]:
+        # a replayable counterexample of this unit exists already; the undecided functions stay undecided
+        need_seed = False
+    if need_seed:
+        hit, tried, note = seed_search(cur, pin, unit, spec, repo, min(budget_s, max(15, UNIT_BUDGET_S - (time.time() - t0))))
+        for r in results:
+            if r["status"] == "different" and "replay" not in r:
+                if hit:
+                    r["replay"] = seed_replay(hit, spec)
+                    r["detail"] += f"; the z3 input (an internal state / argument) cannot be injected into the real crates; seed-level run: {hit['what']} for {hit['how']} {hit['cls']}"
+                elif not spec["serde"]:
+                    r["status"] = "unknown"
+                    r["detail"] = (f"z3 found an input (a state / argument that cannot be injected: no serde) on which the versions differ, but none of {tried} "
+                                   f"structured seeds shows a difference in {3} blocks {note}").strip()
+                else:
+                    r["detail"] += f"; no direct replay for this function (see its callers); {tried} seeds show no difference {note}".rstrip()
+            elif r["status"] in ("unknown", "unsupported"):
+                if hit:
+                    r["undecided"] = r["status"] + ": " + r["detail"][:200]
+                    r["status"] = "different"
+                    r["detail"] = f"concrete run of the two sources: {hit['what']} for {hit['how']} {hit['cls']} (the symbolic comparison of this function was {r['undecided']})"
+                    r["replay"] = seed_replay(hit, spec)
+                    r["input"] = {hit["how"]: hit["val"].hex() if isinstance(hit["val"], bytes) else f"{hit['val']:#x}"}
+                else:
+                    r["detail"] += f"; {tried} structured seeds run concretely on both sources: no difference {note}".rstrip()
+    return [r for r in results if (r["unit"], r["fn"]) in wanted]
+
 def image_of(inp, unit, fn):
     """harness script line(s) that reproduce the input on the real crates / the Lean model"""
     if fn == "from_seed":
@@ -185,7 +939,8 @@ def main():
     pinned = PINNED
     only = None
     timeout_ms = 20000
-    budget_s = 600
+    budget_s = 1500          # rand_xoshiro / rand_xorshift (the 512-bit jumps take minutes); the block units have their own budget
+    wall_s, seed_budget_s = 60, 45
     a = sys.argv[2:]
     while a:
         if a[0] == "--pinned":
@@ -194,19 +949,27 @@ def main():
             only = set(a[1].split(",")); a = a[2:]
         elif a[0] == "--timeout":
             timeout_ms = int(a[1]); a = a[2:]
+        elif a[0] == "--wall":
+            wall_s = int(a[1]); a = a[2:]
+        elif a[0] == "--seed-budget":
+            seed_budget_s = int(a[1]); a = a[2:]
         elif a[0] == "--budget":
             budget_s = int(a[1]); a = a[2:]
         else:
             a = a[1:]
     t0 = time.time()
-    try:
-        cur, pin = load(repo), load(pinned)
-    except Exception as e:
-        # a source file of the current tree is outside the parser's subset: nothing can be compared
-        json.dump(dict(results=[], error=f"cannot read the sources: {e!r}"[:300], seconds=0), sys.stdout)
-        return
     results = []
-    for cname in ("rand_xoshiro", "rand_xorshift"):
+    block_names = set(BLOCK_UNITS) | set(UNIT_OF_REPORT)
+    old_needed = not only or any(o.split(".")[0] not in block_names for o in only)
+    error = None
+    cur = pin = None
+    if old_needed:
+        try:
+            cur, pin = load(repo), load(pinned)
+        except Exception as e:
+            # a source file of the current tree is outside the parser's subset: nothing of these crates can be compared
+            error = f"cannot read the sources: {e!r}"[:300]
+    for cname in (("rand_xoshiro", "rand_xorshift") if cur is not None else ()):
         for unit in SEED_LENS:
             if unit not in pin[cname].units or not pin[cname].units[unit]["methods"]:
                 continue
@@ -230,7 +993,7 @@ def main():
                     r["replay"] = image_of(r["input"], unit, base)
                     r["input"] = {k: f"{v[0]:#x}" for k, v in r["input"].items()}
                 results.append(r)
-    for unit, fn in JITTER_FNS:
+    for unit, fn in (JITTER_FNS if cur is not None else ()):
         if only and f"{unit}.{fn}" not in only and unit not in only:
             continue
         r = compare(cur["rand_jitter"], pin["rand_jitter"], unit, fn, timeout_ms, runner=lambda c, u, f, m: run_jitter(c, u, f))
@@ -243,7 +1006,16 @@ def main():
                 r["replay"] = dict(kind="lfsr", hex=f"{inp['data'][0]:016x}", time=f"{inp['time'][0]:x}")
             r["input"] = {k: f"{v[0]:#x}" for k, v in inp.items()}
         results.append(r)
-    json.dump(dict(results=results, seconds=round(time.time() - t0, 1)), sys.stdout)
+    S.SIMP_LIMIT = SIMP_DEFAULT
+    for unit, spec in BLOCK_UNITS.items():
+        try:
+            results += run_block_unit(unit, spec, repo, pinned, only, timeout_ms, wall_s, seed_budget_s)
+        except Exception as e:
+            results.append(dict(unit=unit, fn="*", status="unsupported", detail=f"srcdiff crashed on this unit: {e!r}"[:300]))
+    out = dict(results=results, seconds=round(time.time() - t0, 1))
+    if error:
+        out["error"] = error
+    json.dump(out, sys.stdout)
 
 if __name__ == "__main__":
     main()
